@@ -155,6 +155,17 @@ def r01_3(run, model, trs, only_fns=None):
                         names = b[k] if isinstance(b[k], tuple) else (b[k],)
                         if not any(nm in body_ids for nm in names) and not whole:
                             dropped.append((k, f"binding `{names[0]}` unused"))
+                # a child *collection* is traversed whole: an adaptor that drops elements (skip, take, step_by, a sub-slice) loses sub-terms
+                for k in kids:
+                    names = b.get(k)
+                    names = names if isinstance(names, tuple) else ((names,) if isinstance(names, str) else ())
+                    for c in S.walk(body):
+                        if c["k"] == "MethodCall" and c["method"] in ("skip", "take", "step_by", "skip_while", "take_while", "nth"):
+                            r = c["recv"]
+                            while r["k"] == "MethodCall":
+                                r = r["recv"]
+                            if r["k"] == "Path" and len(r["segs"]) == 1 and r["segs"][0] in names:
+                                dropped.append((k, f"`{r['segs'][0]}` traversed through .{c['method']}(..)"))
                 for k, why in dropped:
                     led = CHILD_LEDGER.get((t.fn.name, vname, k)) or CHILD_LEDGER.get((t.fn.name, "*", "*"))
                     run.ob("R01.3", f"{t.fn.name}|{vname}.{k}", led is not None, site(t.fn.file, arm["sp"]),
@@ -329,6 +340,9 @@ def run(run, model):
     run.try_rule(r01_4, model, trs)
     run.try_rule(r01_1, model)
     run.try_rule(r01_5, model)
+    from rules import c11
+    for fn_ in (c11.r11_5, c11.r11_6, c11.r11_7, c11.r11_8, c11.r11_9, c11.r11_10):
+        run.try_rule(fn_, model)
     run.try_rule(c09.r09_1, model)
     run.try_rule(c09.r09_3, model)
     run.try_rule(c06.r06_2, model)
